@@ -13,6 +13,9 @@ import time
 
 from . import envs, findings
 
+# OLVERIF_OUT redirects evidence/ and replays/ (used by the mutation self-test so that it never
+# overwrites the evidence of the real tree)
+OUT = os.environ.get("OLVERIF_OUT") or envs.VERIF
 NCPU = int(os.environ.get("OLVERIF_JOBS", "0") or 0) or min(16, os.cpu_count() or 4)
 
 
@@ -115,7 +118,7 @@ def merge(results):
 
 
 def write_replays(prop, violations, tier, seed):
-    d = os.path.join(envs.VERIF, "replays", prop)
+    d = os.path.join(OUT, "replays", prop)
     os.makedirs(d, exist_ok=True)
     out = []
     state = envs.repo_state()
@@ -237,8 +240,8 @@ def main(argv=None):
         "wall_s": wall,
         "violations": m["nviol"],
     }
-    os.makedirs(os.path.join(envs.VERIF, "evidence"), exist_ok=True)
-    with open(os.path.join(envs.VERIF, "evidence", check + ".json"), "w") as f:
+    os.makedirs(os.path.join(OUT, "evidence"), exist_ok=True)
+    with open(os.path.join(OUT, "evidence", check + ".json"), "w") as f:
         json.dump(ev, f, indent=1, default=repr)
 
     for l in lines:
